@@ -9,7 +9,7 @@
    [expect f idx a] is the message a reader has to deliver for it (every header field and payload byte);
    [markers_only_at_starts]: neither "DLT\x01" nor "DLS\x01" starts anywhere but at the message starts. *)
 From Coq Require Import List NArith Bool Lia.
-From AdltV Require Import Base.Res Base.MachInt Dlt.Frame Dlt.FrameProofs Dlt.Iter Dlt.IterProofs.
+From AdltV Require Import Base.Res Base.MachInt Dlt.Frame Dlt.FrameProofs Dlt.Iter Dlt.IterProofs Dlt.IterTotal.
 Import ListNotations.
 Open Scope N_scope.
 
@@ -87,6 +87,23 @@ Theorem C01_parse_serial_single (index : N) (a : amsg) (rest : bytes) :
   parse_serial index (enc_serial a ++ rest) = PMsg (4 + a_len a) (expect_serial index a).
 Proof. exact (parse_serial_enc index a rest). Qed.
 
+(* for EVERY input (no hypothesis on the bytes): the iterator terminates, does not panic unless the u32 index
+   would overflow, the bytes reported as processed never exceed the input (processed + unconsumed = input,
+   the unconsumed rest is a suffix), skipped <= processed, index advanced by the number of messages *)
+Theorem C01_run_total (start : N) (data : bytes) :
+  start + N.of_nat (length data) <= u32max ->
+  exists ms st rest,
+    run_iter start data = Ok (ms, st, rest) /\
+    i_processed st + blen rest = blen data /\
+    i_processed st <= blen data /\
+    i_skipped st <= i_processed st /\
+    i_index st = start + N.of_nat (length ms) /\
+    (exists consumed, data = consumed ++ rest).
+Proof. exact (run_iter_total start data). Qed.
+
+Theorem C01_run_terminates (start : N) (data : bytes) : run_iter start data <> OutOfFuel.
+Proof. exact (run_iter_terminates start data). Qed.
+
 (* the boolean form of the marker hypothesis used by the examples is sound *)
 Theorem C01_markers_check_sound (f : framing) (segs : list seg) (gfin : bytes) :
   markers_only_at_startsb f segs gfin = true -> markers_only_at_starts f segs gfin.
@@ -149,6 +166,8 @@ Print Assumptions C01_iter_recovers_all_serial.
 Print Assumptions C01_expect_fields.
 Print Assumptions C01_parse_storage_single.
 Print Assumptions C01_parse_serial_single.
+Print Assumptions C01_run_total.
+Print Assumptions C01_run_terminates.
 Print Assumptions C01_markers_check_sound.
 Print Assumptions C01_legacy_tiny_serial_refuted.
 Print Assumptions C01_nonvacuous.
